@@ -82,7 +82,7 @@ def hyp_search(acc: Acc, prop: str, name: str, shard: int, n_examples: int, body
     (VERIF_SEED, property, shard).  On a failure the shrunk case is recorded, its
     bucket masked, and the search re-run so that one run enumerates distinct root
     causes (collect-then-shrink)."""
-    from hypothesis import HealthCheck, Phase, given, seed, settings, strategies as st
+    from hypothesis import HealthCheck, Phase, given, reject, seed, settings, strategies as st
 
     if shrink_cap_s is None:
         shrink_cap_s = 20 if tier == "quick" else 120
@@ -96,20 +96,21 @@ def hyp_search(acc: Acc, prop: str, name: str, shard: int, n_examples: int, body
         def test(data):
             if acc.over_budget() and state["best"] is None:
                 return
+            if state["best"] is not None and time.time() - state["t_fail"] > shrink_cap_s:
+                # shrinking budget used up: every further candidate is rejected at no cost; the
+                # smallest failing case seen so far (state["best"]) is what gets reported
+                state["capped"] = True
+                reject()
             state["n"] += 1
             ds = body(data)
             ds = [d for d in ds if d.bucket not in masked]
             if not ds:
                 return
             d = ds[0]
-            now = time.time()
             if state["t_fail"] is None:
-                state["t_fail"] = now
-            if state["best"] is not None and now - state["t_fail"] > shrink_cap_s:
-                # shrinking budget used up: only the current best keeps failing
-                if env.fp(d.case) != env.fp(state["best"].case):
-                    return
-            state["best"] = d
+                state["t_fail"] = time.time()
+            if state["best"] is None or len(json.dumps(d.case, default=repr)) <= len(json.dumps(state["best"].case, default=repr)):
+                state["best"] = d
             raise _Fail(d.bucket)
 
         t = given(st.data())(test)
@@ -123,8 +124,8 @@ def hyp_search(acc: Acc, prop: str, name: str, shard: int, n_examples: int, body
             t()
         except _Fail:
             pass
-        except Exception as e:  # Flaky, harness bugs
-            if state["best"] is None or type(e).__name__ not in ("Flaky", "FlakyFailure", "FlakyStrategyDefinition"):
+        except Exception as e:  # Flaky / Unsatisfiable after the shrink cap; anything else is a harness bug
+            if state["best"] is None or not (state.get("capped") or type(e).__name__.startswith("Flaky")):
                 raise
         if state["best"] is None:
             break
